@@ -29,7 +29,7 @@ def run(tier):
     ck = Check("C10", tier)
     ck.rule = "one case per TLC-enumerated (point set, kernel composition, mean function); distinct by construction"
     ck.assumptions = ["families with rational kernel values: SE with 1/(2L^2) = m ln2, RQ with alpha in {1,2}, noise variances 2^j, change-point width 1/ln2",
-                      "the stabilising jitter is a free parameter: builder - pairwise must be a small non-negative multiple of the identity (<= 1e-6 amplitude^2) plus the noise variances",
+                      "the stabilising jitter is a free parameter: builder - pairwise must be a small non-negative multiple of the identity (<= 1e-9 amplitude^2; the code's is 1e-12 amplitude^2) plus the noise variances",
                       "change-points with 4 kernels only on a two-point set, sums inside change-points not enumerated (32-bit exact arithmetic)"]
     r = run_tlc("MC_KernelExact", cfg_text="INIT Init\nNEXT Next\nINVARIANT ValidCov\nINVARIANT GradCount\nCHECK_DEADLOCK FALSE\n", timeout=1800)
     if r.violated:
@@ -69,8 +69,8 @@ def run(tier):
                     diff = M - want_build
                     off = diff - np.diag(np.diag(diff))
                     amp = float(np.max(np.diag(want_build)))
-                    if M.shape != want_build.shape or np.max(np.abs(off)) > 1e-9 * max(1.0, amp) or np.min(np.diag(diff)) < -1e-9 * amp \
-                            or np.max(np.diag(diff)) > 1e-6 * amp:
+                    if M.shape != want_build.shape or np.max(np.abs(off)) > 1e-9 * amp or np.min(np.diag(diff)) < -1e-9 * amp \
+                            or np.max(np.diag(diff)) > 1e-9 * amp:
                         ck.violation("data-covariance builder = generic pairwise evaluation + documented diagonal terms (noise variances, small jitter)",
                                      {**ident, "method": nm, "want": want_build, "got": M}, site=f"{cname}.build_covariance")
                     elif not np.allclose(M, M.T, rtol=0, atol=1e-12 * amp) or np.min(np.linalg.eigvalsh(0.5 * (M + M.T))) < -1e-9 * amp:
